@@ -116,6 +116,11 @@ class NameSanitizer:
         # "date" or "field" would shadow them for the fields declared after it
         "date",
         "field",
+        # Members of the generated APIClient / MockAPIClient: a tag of that name would be a property that the member
+        # of the same name replaces (request, close) or that makes the constructor fail (transport has no setter)
+        "transport",
+        "request",
+        "close",
         # Other problematic names
         "data",
         "model",
